@@ -77,6 +77,7 @@ def analyse(ctx):
                     info.commits.append(Commit(f, bb, idx, stmt.sp, src, st, rf))
                 else:
                     info.commits.append(Commit(f, bb, idx, stmt.sp, None, None, None))
+            _count_commits(ctx, f, info, summaries)
         elif info.direct_fields:
             info.kind = "helper"
             # in-place code: analyse *self itself; commit = every Ok exit
@@ -95,6 +96,41 @@ def analyse(ctx):
     ctx._mutators = infos
     ctx._summaries = summaries
     return infos
+
+
+def _count_commits(ctx, f, info, summaries):
+    """core mutators: possible numbers of commits (`*self = work`) on the paths
+    to each non-Err exit (a success that committed nothing is an update that
+    did not happen: no new sequence number, no new signature)"""
+    an = ctx.an(f)
+    cfg = an.cfg
+    commit_at = {}
+    for c in info.commits:
+        commit_at.setdefault(c.bb, []).append(c.idx)
+    state = {n: set() for n in cfg.nodes}
+    state[0] = {0}
+    work = [0]
+    while work:
+        n = work.pop(0)
+        out = set(state[n])
+        for _ in commit_at.get(n, []):
+            out = {min(c + 1, 2) for c in out}
+        for s in cfg.succ[n]:
+            if not out <= state[s]:
+                state[s] |= out
+                if s not in work:
+                    work.append(s)
+    ea = EffectAnalysis(ctx, f, summaries)
+    info.ok_commit_counts = {}
+    for bb, idx, e, node in ea.ret_sites():
+        for cls, x in ea.classify_ret(e):
+            if cls == "Err":
+                continue
+            counts = set(state[bb])
+            for ci in commit_at.get(bb, []):
+                if ci < idx:
+                    counts = {min(c + 1, 2) for c in counts}
+            info.ok_commit_counts[(bb, idx, cls, getattr(node, "sp", None))] = counts
 
 
 def _count_calls(ctx, f, info, summaries):
